@@ -82,6 +82,19 @@ class ParserInterp(Interp):
         self.calls_out = []               # (callee, ctx)
         keep = {SKIP, "result", "loop", "block", "frame", "container", "cif", "name", "is_block", "have_packets"}
         keep |= {p["name"] for p in fn.params}
+        # any variable that receives a handler's answer (a refactoring may have renamed `result`)
+        for (b, i, r, n) in fn.eval_sites():
+            tgt_var, rhs = None, None
+            if n.get("k") == "asg" and n.get("op") == "=":
+                tgt_var, rhs = path(strip(n.get("lhs"))), n.get("rhs")
+                if tgt_var and rhs is not None and any(x.get("k") == "call" and indirect_target(x) in HANDLER_FIELDS
+                                                       for x in walk(rhs) if isinstance(x, dict)):
+                    keep.add(tgt_var)
+            elif n.get("k") == "decl":
+                for v in n.get("vars", []):
+                    if v.get("init") is not None and any(x.get("k") == "call" and indirect_target(x) in HANDLER_FIELDS
+                                                         for x in walk(v["init"]) if isinstance(x, dict)):
+                        keep.add(v["name"])
         self.tracked = {p for p in self.tracked if p in keep} | {SKIP}
         self.always_live = {SKIP, GH_H, GH_S, GH_SH, GH_D, GH_C}
         self.arith_paths = {SKIP}
